@@ -68,3 +68,20 @@ Proof. vm_compute. reflexivity. Qed.
 (* Transport.Clone hands the clone a COPY of the wrapper slice (fam_step FClone) *)
 Lemma clone_copies_wrappers_go_as_modelled : src_clone_wrappers = bs "cloneSlice(t.httpRoundTripWrappers)".
 Proof. reflexivity. Qed.
+
+(* round 4 *)
+(* http3 writeHeaders: encode, frame and write under ONE critical section (step_locked) *)
+Lemma h3_write_headers_go_as_modelled :
+  src_h3_writeHeaders = bs "{ w.mutex.Lock() defer w.mutex.Unlock() defer w.encoder.Close() defer w.headerBuf.Reset() if err := w.encodeHeaders(req, gzip, """", actualContentLength(req), dumps); err != nil { return err } b := make([]byte, 0, 128) b = (&headersFrame{Length: uint64(w.headerBuf.Len())}).Append(b) if _, err := wr.Write(b); err != nil { return err } _, err := wr.Write(w.headerBuf.Bytes()) return err }".
+Proof. reflexivity. Qed.
+
+(* re-execution: merged copies are remembered and recognised by slice identity (rmerge_step / unmerge) *)
+Lemma resend_go_as_modelled :
+  src_parseRequestHeader = bs "{ if c.Headers == nil { return nil } if r.Headers == nil { r.Headers = make(http.Header) } for k, vs := range c.Headers { if len(r.Headers[k]) == 0 { cp := append([]string(nil), vs...) r.Headers[k] = cp if r.clientMerged.headers == nil { r.clientMerged.headers = make(map[string][]string) } r.clientMerged.headers[k] = cp } } return nil }" /\
+  src_unmerge_headers = bs "for k, vs := range m.headers { if cur := r.Headers[k]; len(vs) > 0 && len(cur) == len(vs) && &cur[0] == &vs[0] { delete(r.Headers, k) } }".
+Proof. split; reflexivity. Qed.
+
+(* HTTP/1.1: the caller's map is written with the exact-key table (h1_user) *)
+Lemma h1_write_subset_call_go_as_modelled :
+  src_h1_write_subset_call = bs "headerWriteSubset(r.Header, reqWriteExcludeHeader, writeHeader, sort)".
+Proof. reflexivity. Qed.
